@@ -653,6 +653,104 @@ def rule_accumulator_width(m):
     return res
 
 
+def rule_second_range(m):
+    """F-RANGE2: algorithms that take a second range by its first iterator only."""
+    res = RuleResult('F-RANGE2', 'std::equal / std::is_permutation / std::mismatch are not called in their three-iterator form (second '
+                                 'range given by its begin only) unless the lengths of the two ranges have been compared on the way: '
+                                 'the form reads as many elements of the second range as the first has')
+    for f in list(m.fns) + _fixture_functions('secondrange'):
+        if not f.tname.startswith(NS):
+            continue
+        tt = Terms(f)
+        for n in f.nodes:
+            if n['k'] != 'CallExpr' or 'callee' not in n:
+                continue
+            tn = f.unit.decl(n['callee'])['tname']
+            if tn not in ('std::equal', 'std::is_permutation', 'std::mismatch'):
+                continue
+            a = [tt.t(x) for x in n.get('args', [])]
+            its = [x for x in a if x[0] == 'mcall' and x[1].split('::')[-1] in ('begin', 'end', 'cbegin', 'cend')]
+            if len(its) != 3:
+                continue
+            res.sites += 1
+            c1, c2 = its[0][2], its[2][2]
+            from .rules_pair import region_atoms
+            sized = False
+            for at in region_atoms(f, tt, n['i']):
+                if at[0] == 'bin' and at[1] == '==' and all(x[0] == 'mcall' and x[1].endswith('::size') for x in (at[2], at[3])) and \
+                        {at[2][2], at[3][2]} == {c1, c2}:
+                    sized = True
+            if sized:
+                res.ok(dict(function=f.display(), call=f.expr_text(n['i'])[:50], guard='sizes compared'), fn=f.display())
+            else:
+                res.fail(Finding('F-RANGE2', f.display(), 'second range without its end', f.nloc(n['i']),
+                                 '`%s` gives the second range by its first iterator only: when it is shorter than the first range the '
+                                 'algorithm reads past its end (undefined; with lists it walks through the sentinel node)'
+                                 % f.expr_text(n['i'])[:70]))
+    res.sites += 1
+    res.ok(None)
+    _fixture_verdict(res, 'secondrange')
+    return res
+
+
+def rule_shift_width(m):
+    """D-SHIFT: a mask wider than int is not built by shifting an int."""
+    res = RuleResult('D-SHIFT', '`1 << n` with an `int` left operand is not used to build a value of a 64-bit type: the shift is done in '
+                                '32 bits (undefined for n >= 32, in practice the bit lands 32 places lower), whatever the type the result '
+                                'is then converted to')
+    for f in list(m.fns) + _fixture_functions('shiftwidth'):
+        if not f.tname.startswith(NS):
+            continue
+        for n in f.nodes:
+            if n['k'] != 'BinaryOperator' or n.get('op') != '<<' or n.get('t') not in ('int', 'unsigned int'):
+                continue
+            lhs = f.nodes[f.strip(n['c'][0])]
+            rhs = f.nodes[f.strip(n['c'][1])]
+            if lhs['k'] != 'IntegerLiteral' or rhs['k'] == 'IntegerLiteral':
+                continue
+            # where does the value go?  the nearest enclosing assignment / initialisation of a 64-bit integer
+            sink = None
+            for a in f.ancestors(n['i']):
+                an = f.nodes[a]
+                if an['k'] in ('CompoundAssignOperator', 'BinaryOperator') and an.get('op', '') in ('|=', '&=', '^=', '=', '+='):
+                    sink = f.nodes[f.strip(an['c'][0])].get('t')
+                    break
+                if an['k'] == 'DeclStmt' and len(an.get('decls', [])) == 1:
+                    sink = f.unit.decl(an['decls'][0]).get('ctype')
+                    break
+                if an['k'] in ('ReturnStmt', 'CallExpr', 'CXXMemberCallExpr'):
+                    break
+            w = _width(sink)
+            if w is None:
+                continue
+            res.sites += 1
+            if w[1] == 'i' and w[0] <= 32:
+                # a 32-bit local that holds the mask: where is it combined with a 64-bit word?
+                for a in f.ancestors(n['i']):
+                    an = f.nodes[a]
+                    if an['k'] == 'DeclStmt' and len(an.get('decls', [])) == 1:
+                        dv = an['decls'][0]
+                        for x in f.nodes:
+                            if x['k'] in ('CompoundAssignOperator', 'BinaryOperator') and x.get('op') in ('|=', '&=', '^=', '|', '&', '^'):
+                                ops = [f.nodes[f.strip(c)] for c in x['c'][:2]]
+                                if any(o['k'] == 'DeclRefExpr' and o.get('d') == dv for o in ops):
+                                    ow = [_width(o.get('t')) for o in ops if not (o['k'] == 'DeclRefExpr' and o.get('d') == dv)]
+                                    if ow and ow[0] is not None and ow[0][1] == 'i' and ow[0][0] > 32:
+                                        w = ow[0]
+                                        sink = [o.get('t') for o in ops if not (o['k'] == 'DeclRefExpr' and o.get('d') == dv)][0]
+                        break
+            if w[1] == 'i' and w[0] > 32:
+                res.fail(Finding('D-SHIFT', f.display(), '32-bit shift into a 64-bit value', f.nloc(n['i']),
+                                 '`%s` shifts an `int`: for a shift count of 32 or more the bit does not land where the 64-bit `%s` '
+                                 'expects it (write the literal with the width of the target, e.g. 1ULL)' % (f.expr_text(n['i'])[:40], sink)))
+            else:
+                res.ok(None, fn=f.display())
+    res.sites += 1
+    res.ok(None)
+    _fixture_verdict(res, 'shiftwidth')
+    return res
+
+
 def rule_string_plus_int(m):
     """D-STRPLUS: `"text" + n` is pointer arithmetic."""
     res = RuleResult('D-STRPLUS', 'no `+` has a string literal (a const char array) on one side and an integer on the other: that is '
